@@ -3,6 +3,8 @@
   Files travel as paths (binary), results as one text line per operation.
 -/
 import RV.Model.Bin
+import RV.Model.Cadence
+import RV.Scalar
 namespace RV.BinIO
 open RV.Bin
 
@@ -24,7 +26,7 @@ def tHex (b : Bytes) : String := String.ofList (hexN 16 (de (b.take 8)))
 
 def parseVariant (s : String) : Variant :=
   match s.toList with
-  | [a, b, c, d] => ⟨a == '1', b == '1', c == '1', d == '1'⟩
+  | [a, b, c, d, e, f] => ⟨a == '1', b == '1', c == '1', d == '1', e == '1', f == '1'⟩
   | _ => Variant.current
 
 def entryStr (e : Entry) : String :=
@@ -49,8 +51,8 @@ def canonState (st : State) : List Field :=
 /-- executed instance of the raw/field link: `diffRaw` on the two buffers equals the encoding of
     `diffF` on their parsed field lists -/
 def linkCheck (v : Variant) (bufOld s : Bytes) : Bool :=
-  match parse (bufOld.drop 64), parse (s.drop 64), diffRaw v cmpReal bufOld s with
-  | some a, some b, some d => d == encFs (diffF v cmpReal a b) && diffF v cmpReal a b == diffSpec v cmpReal a b
+  match parse (bufOld.drop 64), parse (s.drop 64), diffRaw v (cmpOf v) bufOld s with
+  | some a, some b, some d => d == encFs (diffF v (cmpOf v) a b) && diffF v (cmpOf v) a b == diffSpec v (cmpOf v) a b
   | _, _, _ => false
 
 def sizeOldOf (file : Bytes) : Nat := (scanFirst (file.length + 1) 64 (file.drop 64) []).1
@@ -66,7 +68,7 @@ partial def archLoop (v : Variant) (file : Bytes) (ss : List String) (link : Boo
     let nv := match parse (bufOld.drop 64), parse (s.drop 64) with
       | some a, some b => (a.filter (fun f => !(b.any (fun g => g.ty = f.ty)))).length
       | _, _ => 0
-    match append v cmpReal file s with
+    match append v (cmpOf v) file s with
     | none => return none
     | some f => archLoop v f r (link && l) (nvan + nv)
 
@@ -98,7 +100,7 @@ def step (toks : List String) : IO String := do
   | ["append", v, file, s, out] =>
     let f ← readBytes file
     let sb ← readBytes s
-    match appendPlan (parseVariant v) cmpReal f sb with
+    match appendPlan (parseVariant v) (cmpOf (parseVariant v)) f sb with
     | .refused => return "refused"
     | .undefined => return "undefined"
     | .plan p =>
@@ -107,7 +109,7 @@ def step (toks : List String) : IO String := do
   | ["plan", v, file, s, dataout] =>
     let f ← readBytes file
     let sb ← readBytes s
-    match appendPlan (parseVariant v) cmpReal f sb with
+    match appendPlan (parseVariant v) (cmpOf (parseVariant v)) f sb with
     | .refused => return "refused"
     | .undefined => return "undefined"
     | .plan p =>
@@ -137,6 +139,15 @@ def step (toks : List String) : IO String := do
     let img := if pos == "fresh" then d.take (natOf k) else crash f (natOf pos) d (natOf k)
     writeBytes out img
     return "ok " ++ toString img.length
+  | "cad" :: sg :: iv :: nx :: ts =>
+    -- interval cadence on IEEE doubles: sign, interval, next, boundary times (16 hex digits each)
+    let sign : Float := if sg == "-1" then -1.0 else 1.0
+    let r := RV.Cadence.run RV.Cadence.floatOps sign (RV.floatOfHex iv) (RV.floatOfHex nx) (ts.map RV.floatOfHex)
+    return String.ofList (r.1.map (fun b => if b then '1' else '0')) ++ " " ++ RV.floatToHex r.2
+  | "cadstep" :: st :: nx :: ts =>
+    let r := RV.Cadence.runStep (natOf st) (natOf nx) (ts.map natOf)
+    return String.ofList (r.1.map (fun b => if b then '1' else '0')) ++ " " ++ toString r.2
+  | ["capat", i] => return toString (RV.Cadence.capAt (natOf i))
   | ["nofake", img, last] =>
     let f ← readBytes img
     return toString (noFakeTrailer f (natOf last))
